@@ -28,11 +28,16 @@ def reader_fn(facts, name):
     return facts.fns[ids[0]]
 
 
+_FACTS = [None]
+
+
 def returning_paths(fn):
     c = cfg(fn)
     out = []
     for p, cut in c.paths():
         last = fn.term(p[-1])["k"]
+        if _FACTS[0] is not None and PathExec(_FACTS[0], fn).run_path(p).infeasible:
+            continue  # the path contradicts a value it assigned itself (flag / Option carried to a later test)
         out.append((p, cut, last))
     return out
 
@@ -91,6 +96,7 @@ def law(rule, key, what, lhs, rhs, where):
 
 def run_r1(ctx, rule):
     facts = ctx.facts
+    _FACTS[0] = facts
     a = facts.adts.get(DRT)
     if a is None:
         rule.bad("adt/missing", "anchor missing: DeferredReader", kind="anchor-missing")
@@ -127,6 +133,7 @@ WRITERS = {
 
 def run_r2(ctx, rule):
     facts = ctx.facts
+    _FACTS[0] = facts
     # inventory: every function that stores an integer field must be a known writer
     for f, bi, si, name in util.field_stores(facts, DRT):
         if name not in INT_FIELDS:
@@ -245,6 +252,7 @@ def run_r7(ctx, rule):
     """observers look at the window where the cursor is *now*: the index / range handed to the buffer is the
     current pos_in_buf (+ offset), also after a refill inside the same call moved the window"""
     facts = ctx.facts
+    _FACTS[0] = facts
     n_arg = Aff.sym("arg2")
 
     def cur(ex, st, name):
@@ -292,6 +300,7 @@ def run_r7(ctx, rule):
 
 def run_r3(ctx, rule):
     facts = ctx.facts
+    _FACTS[0] = facts
     fn = reader_fn(facts, "request_more")
     found = False
     for p, cut, last in returning_paths(fn):
@@ -323,6 +332,7 @@ def run_r3(ctx, rule):
 
 def run_r4(ctx, rule):
     facts = ctx.facts
+    _FACTS[0] = facts
     fn = reader_fn(facts, "request_more")
     found = False
     for p, cut, last in returning_paths(fn):
@@ -349,6 +359,7 @@ def run_r4(ctx, rule):
 
 def run_r5(ctx, rule):
     facts = ctx.facts
+    _FACTS[0] = facts
     fn = reader_fn(facts, "request_more")
     n = 0
     for p, cut, last in returning_paths(fn):
@@ -404,6 +415,7 @@ def run_r5(ctx, rule):
 
 def run_r6(ctx, rule):
     facts = ctx.facts
+    _FACTS[0] = facts
     fn = reader_fn(facts, "from_buf_reader")
     sy = sym(fn)
     chains = [(bb, t) for bb, t in fn.calls() if util.cname(t).endswith("Read::chain")]
@@ -437,6 +449,7 @@ def run_r6(ctx, rule):
 
 
 def run(ctx):
+    _FACTS[0] = ctx.facts
     r1 = ctx.rule("C02-R1", "reader fields are private and written only inside the reader's own impl", floor=20)
     run_r1(ctx, r1)
     r2 = ctx.rule("C02-R2", "conservation laws of position, mark and window per writing method (affine path execution)", floor=25)
